@@ -161,7 +161,7 @@ def run(ctx, name, kind, **kw):
                     for fmt in ("string", "der"):
                         judge(ctx, c, dom, d, kk, dg, at, fmt, "recover.digest", "%s|dl%+d" % (c.name, dl - L))
                 # hashing entry point with several hashes
-                for hn in ("sha1", "sha256", "sha512", "blake2b_13"):
+                for hn in ("sha1", "sha256", "sha512", "blake2b_13", "blake2b_person", "prefixed_sha256"):
                     hf = lib.hash_by_name(hn)
                     msg = b"c14 %d" % rnd
                     judge(ctx, c, dom, d, kk, hf(msg).digest(), True, "string", "recover.hash", "%s|%s" % (c.name, hn), via_hash=(msg, hf))
